@@ -1,0 +1,56 @@
+//! Verification hooks (feature `verif`): a thread-local virtual clock.
+use std::cell::Cell;
+use std::time::Duration;
+
+thread_local! {
+    static VNOW: Cell<Option<u64>> = const { Cell::new(None) };
+    static READS: Cell<u64> = const { Cell::new(0) };
+}
+
+/// Arms the virtual clock of this thread at `nanos`.
+pub fn arm(nanos: u64) {
+    VNOW.with(|c| c.set(Some(nanos)));
+}
+/// Disarms the virtual clock: `Instant` falls back to the real clock.
+pub fn disarm() {
+    VNOW.with(|c| c.set(None));
+}
+/// Advances the virtual clock (no-op when disarmed).
+pub fn advance(nanos: u64) {
+    VNOW.with(|c| {
+        if let Some(v) = c.get() {
+            c.set(Some(v + nanos))
+        }
+    });
+}
+/// Current virtual time, if armed.
+pub fn now_nanos() -> Option<u64> {
+    VNOW.with(|c| c.get())
+}
+/// Number of `Instant::now()` calls made through the shim on this thread.
+pub fn reads() -> u64 {
+    READS.with(|c| c.get())
+}
+
+#[derive(Clone, Copy, Debug)]
+pub enum Instant {
+    Real(std::time::Instant),
+    Virtual(u64),
+}
+impl Instant {
+    pub fn now() -> Self {
+        READS.with(|c| c.set(c.get() + 1));
+        match now_nanos() {
+            Some(v) => Instant::Virtual(v),
+            None => Instant::Real(std::time::Instant::now()),
+        }
+    }
+    pub fn elapsed(&self) -> Duration {
+        match self {
+            Instant::Real(i) => i.elapsed(),
+            Instant::Virtual(v0) => {
+                Duration::from_nanos(now_nanos().unwrap_or(*v0).saturating_sub(*v0))
+            }
+        }
+    }
+}
